@@ -146,6 +146,43 @@ def sweeps(tier, rng):
                             except Exception as e:
                                 failure = "undecodable %r table cannot be re-saved: %r" % (tag, e)
                     yield ((corpus.rel(path), tag, mode, len(bad)), failure)
+        # tables that are structurally well formed but nested deeper than the decoder can follow: the decoder runs out of
+        # interpreter stack (RecursionError), which is one more way of being undecodable
+        import struct, sys
+        from fontTools.fontBuilder import FontBuilder
+        from fontTools.pens.ttGlyphPen import TTGlyphPen
+        from fontTools.ttLib.tables.DefaultTable import DefaultTable
+        def deep_colr(depth):
+            head = struct.pack(">HHLLHLLLLL", 1, 0, 0, 0, 0, 34, 0, 0, 0, 0) + struct.pack(">LHL", 1, 1, 10)
+            return head + (bytes([14]) + (8).to_bytes(3, "big") + struct.pack(">hh", 1, 1)) * depth + bytes([2]) + struct.pack(">Hh", 0, 0x4000)
+        for depth in (3, 40, 1500, 6000) if tier == "quick" else (3, 40, 200, 1500, 3000, 6000, 20000):
+            payload = deep_colr(depth)
+            fb = FontBuilder(1000, isTTF=True); fb.setupGlyphOrder([".notdef", "A"]); fb.setupCharacterMap({65: "A"})
+            fb.setupGlyf({".notdef": TTGlyphPen(None).glyph(), "A": TTGlyphPen(None).glyph()}); fb.setupHorizontalMetrics({".notdef": (500, 0), "A": (500, 0)})
+            fb.setupHorizontalHeader(ascent=800, descent=-200); fb.setupNameTable({"familyName": "D", "styleName": "R"}); fb.setupOS2(); fb.setupPost()
+            raw = DefaultTable("COLR"); raw.data = payload; fb.font["COLR"] = raw
+            b = io.BytesIO(); fb.font.save(b); data = b.getvalue()
+            failure = None; limit = sys.getrecursionlimit()
+            try:
+                sys.setrecursionlimit(1000)          # the interpreter's default
+                f = TTFont(io.BytesIO(data), ignoreDecompileErrors=True)
+                try:
+                    t = f["COLR"]
+                except BaseException as e:
+                    failure = "ignoreDecompileErrors=True but f['COLR'] raised %s (paint chain %d deep)" % (type(e).__name__, depth)
+                else:
+                    out = io.BytesIO()
+                    try:
+                        f.save(out)
+                        if type(t) is DefaultTable and TTFont(io.BytesIO(out.getvalue()), lazy=True).reader["COLR"] != payload:
+                            failure = "undecodable COLR (paint chain %d deep) re-saved as different bytes" % depth
+                    except RecursionError:
+                        if type(t) is DefaultTable: failure = "raw COLR could not be re-saved"
+                    except Exception as e:
+                        failure = "re-saving raised %r" % (e,)
+            finally:
+                sys.setrecursionlimit(limit)
+            yield (("generated", "COLR", "paint-chain", depth), failure)
     def run_failed_save():
         tmp = tempfile.mkdtemp(prefix="fvC20_")
         try:
